@@ -21,7 +21,7 @@ def jobs(pid, tier, seed):
     out += [{"kind": "fixture", "name": nm, "seed": seed * 1000 + i} for nm in sorted(SPECS) for i in range(8 if tier == "quick" else 150)]
     n = 900 if tier == "quick" else 20000
     out += [{"kind": "diff", "seed": seed * 1000003 + i} for i in range(n)]
-    out += [{"kind": "diff", "seed": seed * 1000003 + 5000000 + i, "life": 1} for i in range(n // 2)]
+    out += [{"kind": "diff", "seed": seed * 1000003 + 5000000 + i, "life": 1} for i in range(n)]
     return out
 
 
